@@ -674,14 +674,20 @@ fn env_impl(env: &Env, xenv: &[(String, String)]) -> HashMap<String, Expr> {
     let mut m: HashMap<String, Expr> = env
         .iter()
         .map(|(n, v)| {
-            (n.clone(), match v {
-                V::I(i) => Expr::Integer(*i),
-                V::F(f) => Expr::Float(*f),
-            })
+            (
+                n.clone(),
+                match v {
+                    V::I(i) => Expr::Integer(*i),
+                    V::F(f) => Expr::Float(*f),
+                },
+            )
         })
         .collect();
     for (n, f) in xenv {
-        m.insert(n.clone(), formula::parse(f));
+        // a binding whose text the parser rejects (panic) stays unbound
+        if let Ok(e) = catch(|| formula::parse(f)) {
+            m.insert(n.clone(), e);
+        }
     }
     m
 }
@@ -946,7 +952,13 @@ fn do_raw(cx: &mut Ctx, src: &str, env: &Env, xenv: &[(String, String)], tag: &s
     if !src.is_ascii() || src.contains(',') && false {
         return;
     }
-    let imp = run_impl(src, &env_impl(env, xenv));
+    let ienv = env_impl(env, xenv);
+    if ienv.len() != env.len() + xenv.len() {
+        cx.rep.violation(json!({"kind": "parse-panic", "where": "expression binding"}),
+            &format!("parse panics on a well-formed <Expression> binding {xenv:?}"), json!({"formula": xenv.iter().map(|x| x.1.clone()).collect::<Vec<_>>().join(" ;; "), "env": "-"}));
+        return;
+    }
+    let imp = run_impl(src, &ienv);
     cx.rep.case(&format!("{src}|{}", env_wire(env, xenv)), imp.is_some());
     cx.rep.count(&format!("src/{tag}"));
     cx.rep.count(if imp.is_some() { "raw:parsed" } else { "raw:parse-panic" });
